@@ -24,7 +24,9 @@ REG = {
          'Pb <= massB, Pnb <= massNB, score <= true CTC path sum (never over-counts); exact and complete when nothing is pruned; '
          'joining = grouping of textbook prefix-beam contributions and each frame keeps a top-k of the positive candidates; the '
          'beam never dies; unnormalised input rejected. Model tied to the real decoder by correspondence in exact rationals '
-         '(sets equal, scores within 1e-7, near-ties skipped) + brute-force path-sum oracle + textbook reference that enumerates every legal '
+         '(sets equal, scores within 1e-7, near-ties skipped; PER-FRAME: the beam the real decoder holds at the start of every frame - '
+         'prefixes with Pb and Pnb separately, observed by wrapping compute_Pb / find_new_prefixes without touching the source - '
+         'equals the model\'s beam after the previous frame) + brute-force path-sum oracle + textbook reference that enumerates every legal '
          'way of breaking (near-)ties at the cut (result must be one of them; never more than k hypotheses); decoder objects are reused.',
     note='Trusted: Lean kernel + 3 standard axioms; floating-point logaddexp/exp/log vs exact arithmetic (1e-7); np.argpartition '
          'returns some top-k set; translator reads the -10 threshold and 1e-5 tolerance.',
@@ -36,7 +38,8 @@ REG = {
          'LM and every selecting cut; first-arg-max laws; the best hypothesis is independent of hypothesis order when unique; '
          'posteriors are probabilities summing to 1 and the arg-max of the posteriors is the arg-max of the totals (confidence = '
          'posterior of the best hypothesis); LM scale 0 reproduces LM-free decoding exactly. Correspondence with the real decoder '
-         'driven by history-hash toy LMs (half of the decoder objects have already decoded other lines from other start states); '
+         'driven by history-hash toy LMs (half of the decoder objects have already decoded other lines from other start states), '
+         'final hypotheses and PER-FRAME beams (prefix -> Pb, Pnb, LM score); '
          'oracle recomputes LM scores along transcripts.',
     note='Trusted: as C02; rank decisions with margin < 1e-6 skipped; real torch LM (LMWrapper) not modelled: any object with the '
          'advance/log_probs/eos interface is covered by the theorems.',
